@@ -917,7 +917,7 @@ func (d *snEnv) runCase(c snCase, rep, idx int) error {
 	var orig, mutated []byte
 	var err error
 	if snIsEth(c.Route) {
-		o := d.ethOpts(c.Route, nonce, rcpt, amount, 40000+extraGas, data, d.n.App.EvmKeeper.ChainID())
+		o := d.ethOptsF(c.Route, nonce, rcpt, amount, 40000+extraGas, data, d.n.App.EvmKeeper.ChainID(), c.Field)
 		if o.Type != 0 {
 			o.Access = ethtypes.AccessList{{Address: ethAddr(rcpt), StorageKeys: []common.Hash{common.BigToHash(big.NewInt(1))}}}
 		}
@@ -934,7 +934,7 @@ func (d *snEnv) runCase(c snCase, rep, idx int) error {
 	} else {
 		msgs := []sdk.Msg{banktypes.NewMsgSend(k.Addr, rcpt.Addr, sdk.NewCoins(sdk.NewCoin(utils.BaseDenom, sdkmath.NewIntFromBigInt(amount))))}
 		o := snSdkOpts{Route: c.Route, Pub: k, Sign: k, ChainID: ChainID, AccNum: d.accNum(signer), Seq: nonce, Gas: 200000 + extraGas,
-			Fee: snFee(200000 + extraGas), Memo: memo, TypedChain: d.n.App.EvmKeeper.ChainID().Uint64()}
+			Fee: d.fee(200000+extraGas, c.Field), Memo: memo, TypedChain: d.n.App.EvmKeeper.ChainID().Uint64()}
 		if orig, err = snSignSdk(o, msgs...); err != nil {
 			return err
 		}
@@ -1033,6 +1033,13 @@ func (d *snEnv) runBatchCase(c snCase, rep, idx int) error {
 	amounts := make([]*big.Int, size+1)
 	for i := 1; i <= size; i++ {
 		amounts[i] = amountAt(i)
+	}
+	// a stale nonce needs a sequence number that was used before
+	if off == "stale" && d.seqOf(offender) == 0 {
+		if err := d.filler(offender); err != nil {
+			return err
+		}
+		d.commit()
 	}
 	build := func(repaired bool) ([]byte, []snPart, error) {
 		next := map[string]uint64{"s1": d.seqOf("s1"), "v": d.seqOf("v")}
